@@ -119,7 +119,35 @@ def rule_arg(r: dict, engine: str, for_training=False):
             return atom(x, **kw)
 
         return tree(r["ast"], **extra)
+    if form == "tree_inner":
+        # the explode option sits on the first operand of the top-level And/Or instead of on the composite itself: Splink either
+        # refuses the composite ("Cannot merge blocking rules with arrays_to_explode") or gives the pairs of the exploding rule
+        def atom(x, **kw):
+            if x[0] in ("eq", "arr") and (x[0] == "arr" or x[1] == x[2]):
+                return brl.block_on(x[1], **kw)
+            return brl.CustomRule(bg.sql(x), **kw)
+
+        def tree(x, **kw):
+            if x[0] in ("and", "or"):
+                return (brl.And if x[0] == "and" else brl.Or)(tree(x[1]), tree(x[2]), **kw)
+            if x[0] == "not":
+                return brl.CustomRule(bg.sql(x), **kw)
+            return atom(x, **kw)
+
+        a = r["ast"]
+        if extra.get("arrays_to_explode") and a[0] in ("and", "or") and bg.uses_arr(a[1]):
+            return (brl.And if a[0] == "and" else brl.Or)(tree(a[1], **extra), tree(a[2]))
+        return tree(a, **extra)
     raise ValueError(form)
+
+
+MERGE_REFUSAL = "Cannot merge blocking rules with arrays_to_explode"
+
+
+def refused_composite(case, r) -> bool:
+    """The documented refusal of a composite over an exploding operand (only the `tree_inner` form builds one)."""
+    return (isinstance(r, dict) and "__error__" in r and MERGE_REFUSAL in r.get("text", "")
+            and any(x.get("form") == "tree_inner" for x in case["rules"]))
 
 
 def make_frame(case: dict, rows: list, ti: int, sd_values=None):
@@ -486,6 +514,7 @@ def vector_cases():
 LABEL_SETS = [["zz", "aa", "mm"], ["a", "a b", "B"], ["d2", "d10", "d1"], ["tb", "ta", "tc"]]   # never in input order = sorted order
 ALIAS_SETS = [["ta", "tb", "tc"], ["zb", "za", "zc"], ["T2", "t10", "t1"], ["q", "p", "r"]]
 RULE_FORMS = ["auto", "dict", "dict_dialect", "custom", "custom_dialect", "tree", "tree"]
+EXPLODING_RULE_FORMS = RULE_FORMS + ["tree_inner", "tree_inner"]
 
 
 def gen_rules(rng: random.Random, engine: str, with_arr: bool, nrules=None):
@@ -515,7 +544,7 @@ def gen_rules(rng: random.Random, engine: str, with_arr: bool, nrules=None):
             d = {"kind": kind, "ast": ast, "top_unparenthesised": rng.random() < 0.6}
             if kind == "salted":
                 d["n"] = rng.choice([2, 2, 3, 4, 7, 16])
-        d["form"] = rng.choice(RULE_FORMS)
+        d["form"] = rng.choice(EXPLODING_RULE_FORMS if kind == "exploding" else RULE_FORMS)
         rules.append(d)
     if rules and len(rules) < 4 and rng.random() < 0.15:
         i = rng.randrange(len(rules))
@@ -786,6 +815,9 @@ def compare(ctx, cases, drv):
         ctx.case(canon, any(bool(mu) and len(v["rules"]) >= 1 for mu, v in zip(musts, vs)),
                  sample={"case": dict(canon, tag=c["tag"]), "impl_rows": r.get("rows") if isinstance(r, dict) else None} if len(recs) <= 4 else None)
         count_inputs(ctx, c, vs, reqs_c, musts)
+        if refused_composite(c, r):
+            ctx.count("composite_over_an_exploding_operand", "refused by Splink (documented)")
+            continue
         if core.impl_error(r):
             ctx.count("impl_error", r["__error__"])
             problems.append((c, f"real code raised {r['__error__']}: {r['text'][:300]} ... {r['text'][-400:] if len(r['text']) > 700 else ''}", True))
@@ -846,12 +878,16 @@ def shrink(case, fails):
 def impl_fails(case):
     case = normalise(case)
     r = run_impl_safe(case)
+    if refused_composite(case, r):
+        return False
     if "__error__" in r:
         return True
     return case_verdict(case, r) is not None
 
 
 def observed_failure(case, rr) -> str | None:
+    if refused_composite(case, rr):
+        return None
     if "__error__" in rr:
         t = rr["text"]
         return f"real code raised {rr['__error__']}: {t[:300]} ... {t[-400:] if len(t) > 700 else ''}"
